@@ -65,6 +65,11 @@ def run(ctx):
             "class inside generic removed": row(M, "g", {"w": td("typing", "List", [td(M, "RemovedClass")])}, INT),
             "function in a local scope": row(M, "deco.<locals>.wrapper", {"a": INT}, INT),
             "name bound to the wrapper of a decorator without functools.wraps": row(M, "shadowed", {"x": INT}, INT),
+            "function replaced by a builtin": row(M, "sleep", {"a": INT}, INT),
+            "generated namedtuple method": row(M, "NT._replace", {"self": td(M, "NT")}, INT),
+            "function replaced by a proxy answering every attribute": row(M, "proxied", {"a": INT}, INT),
+            "property over a non-function getter": row(M, "Holder2.po", {"self": td(M, "Holder2")}, INT),
+            "attribute lookup raising another exception": row(M, "Settings.debug", {"self": INT}, INT),
         }
         # rows that decode but mention parameters that no longer exist are NOT stale: they must be used and the extra name ignored
         extra_param = row(M, "f", {"a": INT, "gone_param": INT}, INT)
